@@ -49,6 +49,21 @@ CHECKS.update({
    "Bounded by walk depth (2-3 plies of history from ~50 seeds, deeper on fortresses).", "DESIGN.md §5 C20"),
 })
 
+CHECKS.update({
+ "C03": ("seq", "model_checking", "exhaustive enumeration of (root, depth, configuration) cases vs unpruned reference negamax/quiescence",
+   "Full-window alpha-beta in 7 configurations (static leaf, captures-only quiescence, TUROCHAMP, SARGON, BERNSTEIN at three branch limits) is compared at every depth 0..D on a corpus of mate nets, endgames, tactical fragments and roots whose history makes draws occur inside the tree with an unpruned reference search that uses the reference rules, draw events and score order; the PV must be legal, within depth, non-empty when it must be, its first move must attain the value, and the board must come back unchanged.",
+   "The reference search calls the implementation's evaluator and exploration predicate (that is what 'same leaf evaluation / same explored moves' means); bounded by corpus and depth; reference node budget reported if hit.", "DESIGN.md §5 C03"),
+ "C11": ("seq", "model_checking", "exhaustive enumeration of search sequences sharing one table; every exact store validated against the reference value",
+   "For 12 roots x 2 position-determined configurations x 5 table sizes x 3 kinds of search sequence (iterative deepening, repeats, successive positions of a game) every search must return the table-less score and a PV starting with a best move, and every ExactBound store - mapped back to its position through the Exploration/QuietSearch seams - must equal the reference minimax value of that position at that depth.",
+   "Reference values are computed on fresh games, valid because the corpus excludes trees with repetition/fifty-move draws (as the property does).", "DESIGN.md §5 C11"),
+ "C12": ("seq", "fault_enumeration", "fault enumeration: the search is cancelled at every one of its N cancellation polls",
+   "Every cancellation point of every case (alpha-beta with static leaf or quiescence on an empty or warmed table, Minimax, SARGON's nested search) is exercised: the search must report ErrHalted, return the board unchanged, leave only true exact entries in the table, and follow-up searches on the same table must return what they return on a table that never saw the halted search.",
+   "Cancellation is observed only where the search polls its context; the poll count N is measured per case on the current tree.", "DESIGN.md §5 C12"),
+ "C13": ("seq", "model_checking", "exhaustive enumeration of all windows over a score alphabet vs reference value",
+   "For every case of the search corpus (alpha-beta in 5 configurations at depth 0..D; the two quiescence searches called directly at every root and one ply below) ALL windows a<b over {lost, mated 1..7, the leaf values of the tree with their 1-ulp neighbours, mate 7..1, won} are searched and the result is checked against the clipping contract with the reference value, the stand-pat floor and exact rating of move-less positions.",
+   "Bounded by corpus, depth and the window alphabet (thinned to <= 10 leaf values per tree).", "DESIGN.md §5 C13"),
+})
+
 NOT_YET = {}
 
 def main():
